@@ -409,7 +409,7 @@ theorem outer_step {ρ₁ ρ₂ : Type} (b0 : Build) (g : Gap) (hg : b0.joinGap 
 
 /-! ### 6. the whole method -/
 
-/-- the outer loop and the end of the method (`outer` = the body of `for scffld in input_asm.scffolds`, `fin` = what follows the loop):
+/-- the outer loop and the end of the method (`outer` = the body of `for scffld in input_asm.scaffolds`, `fin` = what follows the loop):
     when every pass simulates `amStep`, the method refines `addMissing` -/
 theorem whole_refines {ρ : Type} (b : Build) (s : PyRt.SrcNamer) (hs : WFNamer s) (habs : absNamer s = b.namer)
     (outer : Scaffold → OSt → R (PyRt.Ctl OSt ρ))
